@@ -32,7 +32,7 @@ def main():
         return rc
     import_rig()
     for path in sorted(glob.glob(os.path.join(os.path.dirname(__file__), "props", "c*.py"))) + \
-            [os.path.join(os.path.dirname(__file__), "props", n) for n in ("session.py", "bmp.py", "wizard.py", "glue.py", "scripts.py", "structfile.py")]:
+            [os.path.join(os.path.dirname(__file__), "props", n) for n in ("session.py", "bmp.py", "wizard.py", "glue.py", "scripts.py", "structfile.py", "lifecycle.py")]:
         pid = os.path.basename(path)[:-3]
         mod = importlib.import_module("harness.props." + pid)
         if hasattr(mod, "selftest"):
